@@ -62,7 +62,7 @@ func AfterFunc(d Duration, f func()) *Timer {
 		}
 		return &Timer{real: time.AfterFunc(d, f), id: -1}
 	}
-	vrt.Sched("time.AfterFunc")
+	vrt.Sched(what("time.AfterFunc", d))
 	return &Timer{id: vrt.AddTimer(d, 0, f, nil, "AfterFunc")}
 }
 
@@ -74,7 +74,7 @@ func NewTimer(d Duration) *Timer {
 		}
 		return passTimer(d)
 	}
-	vrt.Sched("time.NewTimer")
+	vrt.Sched(what("time.NewTimer", d))
 	ch := vrt.MakeChan[Time](1)
 	return &Timer{C: ch, id: vrt.AddTimer(d, 0, nil, ch, "Timer")}
 }
@@ -108,7 +108,7 @@ func (t *Timer) Reset(d Duration) bool {
 	if !vrt.Active() {
 		return false
 	}
-	vrt.Sched("Timer.Reset")
+	vrt.Sched(what("Timer.Reset", d))
 	return vrt.ResetTimer(t.id, d)
 }
 
@@ -144,7 +144,7 @@ func NewTicker(d Duration) *Ticker {
 		}()
 		return tk
 	}
-	vrt.Sched("time.NewTicker")
+	vrt.Sched(what("time.NewTicker", d))
 	ch := vrt.MakeChan[Time](1)
 	return &Ticker{C: ch, id: vrt.AddTimer(d, d, nil, ch, "Ticker")}
 }
@@ -164,3 +164,15 @@ func (t *Ticker) Stop() {
 }
 
 func Tick(d Duration) *vrt.Chan[Time] { return NewTicker(d).C }
+
+// what names a pending timer operation together with its duration argument: the argument is a value the
+// caller computed earlier and holds in a local, and it decides the future (stateful exploration keys the
+// state on every thread's pending operation).
+//
+//go:norace
+func what(op string, d Duration) string {
+	if !vrt.Stateful() {
+		return op
+	}
+	return op + "(" + d.String() + ")"
+}
